@@ -57,6 +57,9 @@ func runC20(c *Ctx) {
 	c.assume("defers run at function exit in LIFO order (go/ssa rundefers)")
 	ruleNilNilDeref(c, "R20.p")
 	ruleArgumentIndexSafety(c, "R20.p")
+	// a panic in the parser or in a handler of the bundled store unwinds through the open parse / command and root spans
+	rulePanicSitesIn(c, "R20.p", c.P.parserScope(), "parser-panic-sites", 8)
+	ruleStoreIndexSafety(c, "R20.p")
 	ruleSpanSlotOwner(c, "R20.q")
 	loops := c.P.connLoops()
 	c.count("conn-loops", len(loops))
@@ -280,6 +283,38 @@ func checkSpanLoop(c *Ctx, cl *ConnLoop) {
 		}
 		return false
 	}
+	// framework functions that open child spans (directly or through their callees): they may
+	// only be called while this request's root span is open
+	pushes := map[*ssa.Function]bool{}
+	var scan func(f *ssa.Function, d int) bool
+	scan = func(f *ssa.Function, d int) bool {
+		if f == nil || f.Blocks == nil || !inFramework(f) || d > 6 {
+			return false
+		}
+		if v, ok := pushes[f]; ok {
+			return v
+		}
+		pushes[f] = false
+		res := false
+		allInstrs(f, func(ins ssa.Instruction) {
+			if res {
+				return
+			}
+			if spanEvent(ins) == "Push" {
+				res = true
+				return
+			}
+			if ci, ok := ins.(ssa.CallInstruction); ok && spanEvent(ins) == "" {
+				for _, g := range c.P.calleesAt(ci) {
+					if scan(g, d+1) {
+						res = true
+					}
+				}
+			}
+		})
+		pushes[f] = res
+		return res
+	}
 	a := &Auto[spanState]{Fn: fn, Init: spanState{},
 		Step: func(s spanState, ins ssa.Instruction, fail func(string)) []spanState {
 			switch x := ins.(type) {
@@ -299,6 +334,14 @@ func checkSpanLoop(c *Ctx, cl *ConnLoop) {
 					fail(fmt.Sprintf("the function returns with %d child span(s) open", s.Depth))
 				}
 			case *ssa.Call:
+				if spanEvent(x) == "" && s.Root != 1 {
+					for _, g := range c.P.calleesAt(x) {
+						if g != fn && scan(g, 0) {
+							fail("a function that opens child spans (" + fnName(g) + ") is called while no root span is open: its spans start after their parent has finished (or before it started)")
+							break
+						}
+					}
+				}
 				switch spanEvent(x) {
 				case "RootStart":
 					if s.Root == 1 {
